@@ -52,6 +52,9 @@ pub fn run(case: &JobCase) -> Outcome {
 	if trace.log.iter().any(|r| matches!(r.ev, Ev::SpawnFailed { .. })) {
 		o.label("spawn-failed");
 	}
+	if trace.log.iter().any(|r| matches!(r.ev, Ev::WaitFailed { .. })) {
+		o.label("wait-failed");
+	}
 	o.nontrivial = spawns >= 2 && (graceful || burst);
 	if let Some(msg) = overlap(&trace) {
 		o.fail("overlap", format!("{msg}\nlog: {}", jobgen::fmt_log(&trace)));
@@ -94,11 +97,19 @@ pub fn check(e: &Engine) {
 	);
 	e.explore(
 		"random",
-		LegOpts::det(e.tier.pick(6000, 150_000), "random control sequences (<=14 steps), generated gaps/graces/child reactions sharing one value set so ties are frequent, spawn/kill/signal failure injection, generated select! seed"),
-		&|| jobgen::job_case(jobgen::Profile::General).boxed(),
+		LegOpts::det(e.tier.pick(6000, 150_000), "random control sequences (<=14 steps), generated gaps/graces/child reactions sharing one value set so ties are frequent, spawn/kill/signal failure injection, wait() calls that fail while the child lives on (two fifths of the cases), generated select! seed"),
+		&|| {
+			(jobgen::job_case(jobgen::Profile::General), prop_oneof![3 => Just(vec![]), 2 => proptest::collection::vec(0u8..8, 1..4)])
+				.prop_map(|(mut c, wf)| {
+					c.sim.wait_fail = wf;
+					c
+				})
+				.boxed()
+		},
 		&run,
 	);
 	e.require_label("random", "2+spawns", 0.25);
+	e.require_label("random", "wait-failed", 0.08);
 	e.explore(
 		"real-process",
 		LegOpts::realtime(
